@@ -27,6 +27,8 @@ type Obligation struct {
 	Expect  string // "unsat" (default) or "sat" for cover queries
 	Clause  *Clause
 
+	lockOK bool
+
 	// results
 	Status string // unsat, sat, unknown, timeout, error
 	Solver string
@@ -102,12 +104,13 @@ type FnVC struct {
 	props     []string
 	inlining  map[*ssa.Function]bool
 	depsCache map[*ssa.Function][]famSort
+	freshRefs map[string]bool
 	unsupp    string
 }
 
 func NewFnVC(w *World, fn *ssa.Function) *FnVC {
 	sc := NewScript()
-	v := &FnVC{w: w, fn: fn, sc: sc, idCnt: map[string]int{}, notes: map[string]bool{}, ufs: map[string]bool{}, glob: map[string]Term{}, inlining: map[*ssa.Function]bool{}}
+	v := &FnVC{w: w, fn: fn, sc: sc, idCnt: map[string]int{}, notes: map[string]bool{}, ufs: map[string]bool{}, glob: map[string]Term{}, inlining: map[*ssa.Function]bool{}, freshRefs: map[string]bool{}}
 	v.he = &HeapEnv{sc: sc, sorts: map[string]Sort{}}
 	v.he.immutable = func(fam string) bool {
 		for p := range w.Contracts.Immutable {
@@ -145,7 +148,14 @@ func (v *FnVC) Build() (err error) {
 		fr.params = append(fr.params, v.freshTyped("p."+p.Name(), p.Type(), st, tTrue))
 	}
 	for _, fv := range v.fn.FreeVars {
-		fr.freeVars = append(fr.freeVars, v.freshTyped("fv."+fv.Name(), fv.Type(), st, tTrue))
+		val := v.freshTyped("fv."+fv.Name(), fv.Type(), st, tTrue)
+		fr.freeVars = append(fr.freeVars, val)
+		if sc, ok := val.(Sc); ok {
+			if _, isPtr := under(fv.Type()).(*types.Pointer); isPtr {
+				v.freshRefs[sc.T.S] = true // captured variables are cells of the enclosing function
+				v.sc.Assert(Lt(tZero, sc.T))
+			}
+		}
 	}
 	fr.entry = st.clone()
 	// global axioms
@@ -153,6 +163,16 @@ func (v *FnVC) Build() (err error) {
 		env := &specEnv{v: v, fr: fr, st: st, old: st}
 		t := env.evalBool(ax.Expr)
 		v.sc.Assert(t)
+	}
+	// library calling conventions
+	if v.w.Contracts.MethodNonNil[v.fn.Name()] && v.fn.Signature.Recv() != nil {
+		for i, p := range v.fn.Params {
+			if _, isPtr := under(p.Type()).(*types.Pointer); isPtr {
+				if sc, ok := fr.params[i].(Sc); ok {
+					v.sc.Assert(Not(Eq(sc.T, tZero)))
+				}
+			}
+		}
 	}
 	// requires
 	if v.con != nil {
@@ -527,7 +547,7 @@ func (v *FnVC) storeLoc(st *State, l Loc, val Val) {
 	}
 	// aliasing through escaped addresses
 	mi := v.w.mods
-	if l.Kind == locBox && kindOf(t) != kStruct {
+	if l.Kind == locBox && kindOf(t) != kStruct && !v.freshRefs[l.Base.S] {
 		for fam := range mi.escFields[typeKey(t)] {
 			for i, suf := range sufs {
 				v.he.havocFam(st, fam+suf, arrSort(sorts[i]))
@@ -1256,6 +1276,7 @@ func (v *FnVC) globalAddr(g *ssa.Global) Term {
 	id := v.w.GlobalID(k)
 	t := IntLit(-int64(1000000 + id))
 	v.glob[k] = t
+	v.freshRefs[t.S] = true
 	return t
 }
 
